@@ -555,8 +555,8 @@ func GenCase(t *rapid.T, p *Profile) *Case {
 	return c
 }
 
-var allMethods = []int{0, 0, 1, 1, 2, 2, 2, 3, 4, 5, 5, 6, 9, 10, 11, 12, 13}
-var hostileMethods = []int{0, 1, 2, 3, 4, 5, 6, 7, 8, 9, 14, 15, 16, 17, 18}
+var allMethods = []int{0, 0, 1, 1, 2, 2, 2, 3, 4, 5, 5, 6, 9, 10, 11, 12, 13, 19, 20, 25, 26, 27}
+var hostileMethods = []int{0, 1, 2, 3, 4, 5, 6, 7, 8, 9, 14, 15, 16, 17, 18, 19, 20, 21, 22, 23, 24, 25, 26, 27}
 
 // Profiles by name.
 var Profiles = map[string]*Profile{
